@@ -280,7 +280,7 @@ def apply_inline(text, name, info):
                 cur += ch
         return out
     if info['has_self']:
-        rx = re.compile(r'(\b[A-Za-z_]\w*(?:\s*\.\s*[A-Za-z_]\w*)*)\s*\.\s*%s\s*\(' % re.escape(name))
+        rx = re.compile(r'(\b[A-Za-z_]\w*(?:\(\))?(?:\s*\.\s*[A-Za-z_]\w*(?:\(\))?)*)\s*\.\s*%s\s*\(' % re.escape(name))
     else:
         rx = re.compile(r'(?<![\w.])((?:\w+::)*)%s\s*\(' % re.escape(name))
     pos = 0
